@@ -4,6 +4,7 @@ import Operon.Lemmas.C14Tr
 import Operon.Lemmas.C14Held
 import Operon.Model.CoordProbe
 import Operon.Gen.CoordExecProbe
+import Operon.Gen.CoordWatchdogProbe
 import Operon.Gen.CoordTranslated
 /-!
 # C14 — coordinated operations release every resource on every exit path
@@ -596,6 +597,24 @@ theorem c14_exec_table_agrees_with_source :
     Gen.execProbe.map (fun r => (r.1, r.2.1, r.2.2.1)) = probeDomain ∧
     ∀ r ∈ Gen.execProbe, probeRow r.1 r.2.1 r.2.2.1 = (r.2.2.2.1, r.2.2.2.2.1, r.2.2.2.2.2.1, r.2.2.2.2.2.2) ∧
       r.2.2.2.2.2.2 = true := by
+  decide +kernel
+
+set_option synthInstance.maxSize 1024 in
+/-- **The watchdog's per-operation verdict is the code's, on a complete grid (table regenerated from the source on
+    every run).**  `Gen.watchdogProbe` (harness/vf/extract/watchdog_probe.py) is the real `Watchdog.check` EVALUATED on
+    a controller with one active operation for every phase x `watchdog_exempt` x `resources_acquired` x
+    (`max_operation_time`, `starvation_timeout`, `progress_timeout`) each in {None, 0, 5 µs} x (time since creation,
+    time in the current phase) each in {5, 6} µs — 2160 rows, all of `wdDomain`: at each limit and one past it (the
+    `>` of every comparison), with the falsy zero timedelta of `if self.limit:`, in and out of the phase each rule
+    looks at.  On every row the model's `timeoutEvent` gives the same verdict (nothing / timeout / starvation /
+    no_progress) — which operations the watchdog kill path aborts is the code's rule, not only the model's.  A proof
+    by `decide` over the complete finite table. -/
+theorem c14_watchdog_table_agrees_with_source :
+    Gen.watchdogProbeOk = true ∧
+    Gen.watchdogProbe.map (fun r => (r.1, r.2.1, r.2.2.1, r.2.2.2.1, r.2.2.2.2.1, r.2.2.2.2.2.1, r.2.2.2.2.2.2.1, r.2.2.2.2.2.2.2.1))
+      = wdDomain ∧
+    ∀ r ∈ Gen.watchdogProbe,
+      wdRow r.1 r.2.1 r.2.2.1 r.2.2.2.1 r.2.2.2.2.1 r.2.2.2.2.2.1 r.2.2.2.2.2.2.1 r.2.2.2.2.2.2.2.1 = r.2.2.2.2.2.2.2.2 := by
   decide +kernel
 
 /-! ### Non-vacuity: concrete systems meeting the hypotheses -/
